@@ -61,16 +61,10 @@ func (d *DotGit) setRefRwfs(fileName, content string, old *plumbing.Reference) (
 // making it compatible with these simple filesystems. This is usually not
 // a problem as they should be accessed by only one process at a time.
 func (d *DotGit) setRefNorwfs(fileName, content string, old *plumbing.Reference) error {
-	_, err := d.fs.Stat(fileName)
-	if err == nil && old != nil {
-		fRead, err := d.fs.Open(fileName)
-		if err != nil {
-			return err
-		}
-
-		ref, err := d.readReferenceFrom(fRead, old.Name().String())
-		_ = fRead.Close()
-
+	if old != nil {
+		// As in checkReferenceAndTruncate, a missing or empty loose file
+		// means that the value to compare with is in packed-refs.
+		ref, err := d.Ref(old.Name())
 		if err != nil {
 			return err
 		}
